@@ -76,7 +76,11 @@ func LoadWorld(repo string, extraSpecs []string) (*World, error) {
 			continue
 		}
 		if fn.Pkg == nil {
-			continue
+			// an instance of a generic function: it belongs to the package of its origin
+			if fn.Origin().Pkg == nil {
+				continue
+			}
+			fn.Pkg = fn.Origin().Pkg
 		}
 		key, _ := funcKey(fn)
 		w.funcs[key] = fn
